@@ -286,6 +286,66 @@ def event_enum(prog):
     return out
 
 
+ENCODER_OPS = r"^dynamics::.*DynamicConstraintsEncoder::(new_argument|remove_argument|new_attack|remove_attack)$"
+
+
+def _arm_region(b, sw, target_bb):
+    """blocks executed only on the arm of switch `sw` that starts at target_bb (up to the join with other arms; the
+    back edge of an enclosing loop is not followed)"""
+    avoid = {sw.bb} | set(b.in_loop(sw.bb))
+    region = {target_bb} | b.blocks_reachable_from(target_bb, avoid=avoid)
+    others = set()
+    for sc in b.succ[sw.bb]:
+        if sc != target_bb:
+            others |= {sc} | b.blocks_reachable_from(sc, avoid=avoid)
+    return region - others
+
+
+def _ops_called(prog, b, blocks):
+    """names of the update operations of the inner dynamic encoders called in `blocks`, directly or in local helpers"""
+    out = set()
+    for x in blocks:
+        tt = b.blocks[x]["term"]
+        if tt["k"] != "call" or not tt.get("callee"):
+            continue
+        c = tt["callee"]
+        nm = strip_generics(callee_name(c) or "")
+        if re.search(ENCODER_OPS, nm):
+            out.add(nm.rsplit("::", 1)[-1])
+            continue
+        tgt = prog.body_for_callee(c, b) if c.get("decl") != "<indirect>" else None
+        if tgt is not None and tgt.path.startswith("dynamics::") and not re.search(r"DynamicConstraintsEncoder::", strip_generics(tgt.path).replace("BufferedDynamicConstraintsEncoder::", "")):
+            for y in prog.reachable_from([tgt], virtual_dispatch=False).values():
+                for s in y.calls():
+                    n2 = strip_generics(callee_name(callee_of(s)) or "")
+                    if re.search(ENCODER_OPS, n2):
+                        out.add(n2.rsplit("::", 1)[-1])
+    return out
+
+
+def event_matches(prog):
+    """every `match` on an event enum, classified: 'replay' when an update arm applies an operation of the inner encoder
+    (directly or through a helper), 'scan' otherwise: [(enum path, update variants, {discr: name}, body, switch site, kind)]"""
+    out = []
+    for epath, upd in sorted(event_enum(prog).items()):
+        adt = prog.adt(epath)
+        idx = {str(v["idx"]): v["name"] for v in adt["variants"]}
+        for b in prog.lib_bodies():
+            for sw in switch_sites(b):
+                subj = switch_subject(b, sw)
+                if not subj or not subj[1]:
+                    continue
+                ty = place_ty(b, subj[0]).replace("&", "").strip()
+                if not (ty.startswith(epath + "<") or ty == epath):
+                    continue
+                kind = "scan"
+                for val, bb in sw.node["targets"]:
+                    if idx.get(val) in upd and _ops_called(prog, b, _arm_region(b, sw, bb)):
+                        kind = "replay"
+                out.append((epath, upd, idx, b, sw, kind))
+    return out
+
+
 def rule_cache_barriers(ctx):
     prog = ctx.prog
     r = ctx.rule(
@@ -311,7 +371,9 @@ def rule_cache_barriers(ctx):
                     continue
                 loops = b.in_loop(sw.bb)
                 if not loops:
-                    continue  # the replay match lives in a closure (no loop): checked by the replay rule
+                    continue  # not a scan of the log
+                if any(_ops_called(prog, b, _arm_region(b, sw, bb2)) for v2, bb2 in sw.node["targets"] if {str(x["idx"]): x["name"] for x in adt["variants"]}.get(v2) in upd):
+                    continue  # the replay loop (applies the events to the inner encoder): checked by log-and-replay
                 n_scans += 1
                 head = loops[0]
                 loop_blocks = dict(b.loops())[head]
@@ -382,22 +444,8 @@ def rule_log_and_replay(ctx):
                 if tgt.id in reach and any(x is tgt or tgt.id in prog.reachable_from([tgt], False) for x, _ in pushes if x.id in prog.reachable_from([tgt], False) or x is tgt):
                     r.check(b.postdominates(s, (0, -1)), b.id, "conditional-log", "the logging call is unconditional", "the logging call of %s is conditional" % m, s.loc())
     r.floor(n_buffered, 5, "buffered dynamic solvers")
-    # replay functions: bodies with a closure (or loop) matching on the event enum and calling encoder operations
-    replays = []
-    for epath, upd in sorted(enums.items()):
-        adt = prog.adt(epath)
-        idx = {str(v["idx"]): v["name"] for v in adt["variants"]}
-        for b in prog.lib_bodies():
-            for sw in switch_sites(b):
-                subj = switch_subject(b, sw)
-                if not subj or not subj[1]:
-                    continue
-                ty = place_ty(b, subj[0]).replace("&", "").strip()
-                if not (ty.startswith(epath + "<") or ty == epath):
-                    continue
-                if b.in_loop(sw.bb):
-                    continue
-                replays.append((epath, upd, idx, b, sw))
+    # replay functions: bodies with a closure (or loop) matching on the event enum and applying encoder operations
+    replays = [(epath, upd, idx, b, sw) for epath, upd, idx, b, sw, kind in event_matches(prog) if kind == "replay"]
     r.floor(len(replays), 2, "replay matches (one per buffered encoder)")
     for epath, upd, idx, b, sw in replays:
         t = sw.node
@@ -407,18 +455,7 @@ def rule_log_and_replay(ctx):
             if vname not in upd:
                 continue
             methods = upd[vname]
-            region = {bb} | b.blocks_reachable_from(bb, avoid={sw.bb})
-            # stop at the join: blocks reachable from other arms too are common code
-            other_regions = set()
-            for v2, b2 in t["targets"]:
-                if b2 != bb:
-                    other_regions |= {b2} | b.blocks_reachable_from(b2, avoid={sw.bb})
-            arm = region - other_regions
-            called = set()
-            for x in arm:
-                tt = b.blocks[x]["term"]
-                if tt["k"] == "call" and tt.get("callee") and tt["callee"].get("local"):
-                    called.add(strip_generics(callee_name(tt["callee"])).rsplit("::", 1)[-1])
+            called = _ops_called(prog, b, _arm_region(b, sw, bb))
             want = set(methods)
             r.check(want <= called, "%s|%s" % (fn.id, vname), "replay-op:%s" % sorted(called & set(UPDATE_METHODS)), "replay of %s calls encoder operation %s" % (vname, sorted(want)), "replay of %s calls %s instead of %s" % (vname, sorted(called & set(UPDATE_METHODS)), sorted(want)), sw.loc())
         # cursor: a Cell<usize> field read to slice the log and set from the log length at the end
